@@ -1,11 +1,20 @@
 ---------------------------- MODULE CodeWriter_MC ----------------------------
 (* Exhaustive check of the writer under every interleaving of the statements that reach it             *)
 (* (as.c WriteCode): data, reservations, ORG, SEGMENT, CPU switches, word retraction, END.             *)
+(* Second machine (SpecFam, CodeWriter_MCFam.cfg): the whole family of statements that change the      *)
+(* OUTPUT CONTEXT (segment, CPU/granularity, load address) without being SEGMENT/ORG/CPU - RESTORE      *)
+(* after SAVE, RORG, ALIGN (reserving and filling), the STRUCT ... ENDSTRUCT block, BINCLUDE, CPU with *)
+(* the current target, SEGMENT with the current segment - each written like its handler: the handler  *)
+(* sets ActPC / MomCPU / PCs and the DontPrint flag, as.c WriteCode turns DontPrint into NewRecord.    *)
+(* OpenRecordTracksCounter is the record machine's inductive invariant: after EVERY statement the open *)
+(* record's header names the current CPU, segment and granularity and start + length is the current   *)
+(* load address, i.e. the statement that follows opens a new record exactly when segment, CPU,        *)
+(* granularity or the address continuity changed.                                                     *)
 EXTENDS CodeWriter, TLC
 CONSTANTS MaxStmts, Segs, MaxN, MaxAddr, Cpus   \* Cpus: set of [id, gran] records
 
-VARIABLES w, act, cpu, pc, emitted, nst, closed, entry
-vars == <<w, act, cpu, pc, emitted, nst, closed, entry>>
+VARIABLES w, act, cpu, pc, emitted, nst, closed, entry, stk
+vars == <<w, act, cpu, pc, emitted, nst, closed, entry, stk>>
 
 Gran == cpu.gran
 MCCpus == {[id |-> 1, gran |-> 1], [id |-> 2, gran |-> 2]}
@@ -13,7 +22,7 @@ C0 == CHOOSE c \in Cpus : \A d \in Cpus : c.id <= d.id
 
 Init == /\ act = 1 /\ cpu = C0 /\ pc = [s \in Segs |-> 0]
         /\ w = OpenFile(C0.id, 1, C0.gran, 0)
-        /\ emitted = {} /\ nst = 0 /\ closed = FALSE /\ entry = <<>>
+        /\ emitted = {} /\ nst = 0 /\ closed = FALSE /\ entry = <<>> /\ stk = <<>>
 
 Cells(k, n, g) == [j \in 1..(n * g) |-> [k |-> "d", id |-> <<k, j>>]]
 
@@ -24,34 +33,34 @@ Emit(n) ==
      /\ w' = WriteBytes(w, Cells(k, n, Gran), cpu.id, act, Gran, pc[act])
      /\ emitted' = emitted \cup {[seg |-> act, addr |-> pc[act] * Gran + j - 1, id |-> <<k, j>>] : j \in 1..(n * Gran)}
      /\ pc' = [pc EXCEPT ![act] = @ + n] /\ nst' = k
-  /\ UNCHANGED <<act, cpu, closed, entry>>
+  /\ UNCHANGED <<act, cpu, closed, entry, stk>>
 
 \* reservation (DS / RES ...): DontPrint = TRUE, CodeLen = n  => NewRecord(pc + n)
 Reserve(n) ==
   /\ ~closed /\ nst < MaxStmts /\ pc[act] + n <= MaxAddr
   /\ w' = NewRecord(w, cpu.id, act, Gran, pc[act] + n)
   /\ pc' = [pc EXCEPT ![act] = @ + n] /\ nst' = nst + 1
-  /\ UNCHANGED <<act, cpu, emitted, closed, entry>>
+  /\ UNCHANGED <<act, cpu, emitted, closed, entry, stk>>
 
 \* ORG a: pc := a, then WriteCode with CodeLen = 0 and DontPrint = TRUE
 Org(a) ==
   /\ ~closed /\ nst < MaxStmts
   /\ w' = NewRecord(w, cpu.id, act, Gran, a)
   /\ pc' = [pc EXCEPT ![act] = a] /\ nst' = nst + 1
-  /\ UNCHANGED <<act, cpu, emitted, closed, entry>>
+  /\ UNCHANGED <<act, cpu, emitted, closed, entry, stk>>
 
 Segment(s) ==
   /\ ~closed /\ nst < MaxStmts /\ s # act
   /\ w' = NewRecord(w, cpu.id, s, Gran, pc[s])
   /\ act' = s /\ nst' = nst + 1
-  /\ UNCHANGED <<cpu, pc, emitted, closed, entry>>
+  /\ UNCHANGED <<cpu, pc, emitted, closed, entry, stk>>
 
 \* CPU switch (asmallg.c SetCPUCore): new header id / granularity, DontPrint = TRUE; the counters are kept
 Cpu(c) ==
   /\ ~closed /\ nst < MaxStmts /\ c # cpu
   /\ w' = NewRecord(w, c.id, act, c.gran, pc[act])
   /\ cpu' = c /\ nst' = nst + 1
-  /\ UNCHANGED <<act, pc, emitted, closed, entry>>
+  /\ UNCHANGED <<act, pc, emitted, closed, entry, stk>>
 
 \* RetractWords(n) directly after a data statement (parallel instructions): drops the last n units again
 RetractLast(n) ==
@@ -65,13 +74,13 @@ RetractLast(n) ==
           IN emitted' = {e \in emitted : ~(e.id[1] = k /\ e.id[2] > top - n * Gran)}
   /\ w' = Retract(w, n * Gran)
   /\ pc' = [pc EXCEPT ![act] = @ - n] /\ nst' = nst + 1
-  /\ UNCHANGED <<act, cpu, closed, entry>>
+  /\ UNCHANGED <<act, cpu, closed, entry, stk>>
 
 End(e) ==
   /\ ~closed
   /\ w' = [w EXCEPT !.file = CloseFile(w, cpu.id, act, Gran, pc[act], e)]
   /\ entry' = e /\ closed' = TRUE
-  /\ UNCHANGED <<act, cpu, pc, emitted, nst>>
+  /\ UNCHANGED <<act, cpu, pc, emitted, nst, stk>>
 
 Next == \/ \E n \in 1..MaxN : Emit(n)
         \/ \E n \in 0..2 : Reserve(n)
